@@ -30,6 +30,17 @@ INLINE = ["save", "SAVE", "Save", "target", "TARGET", "volatile", "asynchronous"
           "optional", "OPTIONAL", "parameter", "Parameter", "intent(in)", "intent (out)", "INTENT( in out )",
           "intent(inout)", "Intent (In)", "public", "private", "PROTECTED", "bind(c)", "external", "EXTERNAL",
           "intrinsic", "codimension[*]", "dimension(pointer_n)"]
+# keyword-like words of the working tree's ford/sourceform.py (translate/c01.py `vocabulary`), set by harness/c01.py
+VOCAB: list = []
+
+
+def pick_inline(rng):
+    if VOCAB and rng.random() < 0.12:
+        w = rng.choice(VOCAB)
+        return w.upper() if rng.random() < 0.3 else w
+    return rng.choice(INLINE)
+
+
 STMT_KW = ["save", "SAVE", "target", "Target", "volatile", "VOLATILE", "asynchronous", "value", "optional", "Optional",
            "external", "EXTERNAL", "public", "private", "Protected", "intent(in)", "intent (out)", "INTENT( inout )",
            "Intent(In)", "dimension", "DIMENSION", "allocatable", "Allocatable", "pointer", "POINTER", "parameter",
@@ -68,7 +79,7 @@ def gen_attr_case(rng):
                 declared.append(nm)
             if not ents:
                 continue
-            attrs = [rng.choice(INLINE) for _ in range(rng.choice([0, 0, 1, 1, 2, 3]))]
+            attrs = [pick_inline(rng) for _ in range(rng.choice([0, 0, 1, 1, 2, 3]))]
             stmts.append(("D", rng.choice(TYPES), attrs, ents))
         else:
             kw = rng.choice(STMT_KW)
